@@ -20,7 +20,7 @@ import ast
 
 from .. import AnalysisError
 from ..cfg import CFG, ENTRY, EXIT, header_expr
-from ..common import Model, norm, is_self_attr, kw
+from ..common import item_list_field, Model, norm, is_self_attr, kw
 from ..effects import stores_in
 from ..index import Scope, walk_local, walk_expr
 from ..report import Check
@@ -51,22 +51,36 @@ def r07_1_copy_numbers(chk):
     if ccn is None:
         raise AnalysisError("EFLRItem._compute_copy_number not found")
     chk.consult(ccn, init)
-    # the predicate selecting the objects that count
-    preds = [n for n in walk_local(ccn.node) if isinstance(n, ast.Lambda)]
-    comps = [n for n in walk_local(ccn.node) if isinstance(n, (ast.ListComp, ast.GeneratorExp))]
-    tests = [p.body for p in preds] + [i for c in comps for g in c.generators for i in g.ifs]
-    ok = len(tests) == 1
+    # the predicate selecting the objects that count (value-flow normal form: temporaries such as `name = self.name`
+    # are looked through)
+    from ..terms import SELF, A, subterms, is_call, pp, return_alternatives
+    cs = chk.summary(ccn)
+    preds, iters = [], []
+    for _, t in return_alternatives(cs):
+        for x in subterms(t):
+            if is_call(x, "filter", 2) and x[2][0][0] == "lambda":
+                preds.append((x[2][0][2], ("bound", None, x[2][0][1][0])))
+                iters.append(x[2][1])
+            if x[0] == "comp" and len(x[3]) == 1 and x[3][0][2]:
+                el = [y for y in subterms(x[3][0][2][0]) if y[0] == "elem" and y[1] == x[3][0][1]]
+                for c in x[3][0][2]:
+                    preds.append((c, el[0] if el else None))
+                iters.append(x[3][0][1])
+    ok = len(preds) == 1
     if ok:
-        t = tests[0]
-        ok = isinstance(t, ast.Compare) and len(t.ops) == 1 and isinstance(t.ops[0], ast.Eq) \
-            and isinstance(t.left, ast.Attribute) and t.left.attr == "name" \
-            and isinstance(t.comparators[0], ast.Attribute) and t.comparators[0].attr == "name"
+        c, var = preds[0]
+
+        def other_name(t):
+            return t[0] == "attr" and t[2] == "name" and (t[1] == var or (var and var[0] == "bound" and
+                                                                        t[1][0] == "bound" and t[1][2] == var[2]))
+        ok = c[0] == "cmp" and c[1] == "==" and ((other_name(c[2]) and c[3] == A(SELF, "name")) or
+                                                 (other_name(c[3]) and c[2] == A(SELF, "name")))
     chk.require(ok, "R07.1", "copy-number-counts-same-named-objects",
                 f"the copy number does not count exactly the registered objects of the same name "
-                f"(predicate: {[norm(t) for t in tests]}): objects that later coincide in (type, origin, name) can share "
+                f"(predicate: {[pp(p_[0]) for p_ in preds]}): objects that later coincide in (type, origin, name) can share "
                 f"a copy number", ccn.where)
-    src = norm(ccn.node)
-    chk.require("get_all_eflr_items" in src or "_eflr_item_list" in src, "R07.1", "copy-number-from-the-set's-item-list",
+    src = " ".join(pp(i) for i in iters)
+    chk.require("get_all_eflr_items" in src or "parent" in src, "R07.1", "copy-number-from-the-set's-item-list",
                 "the copy number is not derived from the set's list of registered items", ccn.where)
     writers = []
     for f in ix.functions.values():
@@ -78,7 +92,7 @@ def r07_1_copy_numbers(chk):
     lw = []
     for f in ix.functions.values():
         for s in stores_in(f):
-            if s.attr == "_eflr_item_list":
+            if s.attr == item_list_field(ix):
                 lw.append((f, s))
     bad = [(f, s) for f, s in lw if not ((f.cls is eset and f.name == "__init__" and s.kind == "assign") or
                                          (f.cls is eset and f.name == "register_item" and s.kind == "mutator:append"))]
@@ -159,8 +173,10 @@ def r07_3_references(chk):
                 f"no check on the write path verifies that referenced objects belong to the same logical file "
                 f"({len(refs)} reference attributes unchecked)", co.where)
 
+    from ..terms import generator_sources
+
     def own_complete(own):
-        srcs = [own]
+        srcs = [own] + generator_sources(chk.terms, cs, own)
         for lit in (("list", ()), ("set", ()), ("call", ("global", "list"), (), ()), ("call", ("global", "set"), (), ())):
             if contains(own, lit):
                 for e2 in cs.effects:
@@ -170,7 +186,7 @@ def r07_3_references(chk):
                         srcs.extend(lp[2] for lp in e2.loops() if isinstance(lp[2], tuple))
         has_sets = any(contains(t, A(SELF, "_eflr_sets")) for t in srcs)
         has_items = any(contains(t, lambda x: is_call(x, "get_all_eflr_items") or (x[0] == "attr" and
-                                                                                 x[2] == "_eflr_item_list")) for t in srcs)
+                                                                                 x[2] == item_list_field(chk.ix))) for t in srcs)
         filtered = any(x[0] == "comp" and any(cc for _, _, cc in x[3]) for t in srcs for x in subterms(t))
         foreign = any(contains(t, lambda x: x[0] == "attr" and x[2] == "physical_file") for t in srcs)
         return has_sets and has_items and not filtered and not foreign
@@ -210,8 +226,7 @@ def r07_3_references(chk):
         chk.require(own_complete(m[3]), "R07.3", f"own-items-complete:{name}",
                     f"the set of own objects `{pp(m[3])[:80]}` is not built from all items of all sets of the logical "
                     f"file's own registry", e.where)
-        own_iter = any(contains(t, A(SELF, "_eflr_sets")) or (contains(t, lambda x: x[0] in ("list", "set") and x[1] == ())
-                                                              and own_complete(t)) for t in chain(e))
+        own_iter = any(contains(t, A(SELF, "_eflr_sets")) or own_complete(t) for t in chain(e))
         chk.require(own_iter, "R07.3", f"walk-over-own-objects:{name}",
                     "the walk does not iterate over the objects of the logical file's own registry", e.where)
         chk.require(any(own_complete(n[1][3]) for n in nf_checks), "R07.3", f"no-format-objects-covered:{name}",
@@ -289,7 +304,8 @@ def r07_4_origins(chk):
     refs = [t for t in vals if t != NONE]
     def first_own_origin(x):
         alts = [a for _, a in alternatives(x) if a != NONE]
-        return bool(alts) and all(a[0] == "sub" and a[2] == K(0) and own_origins(a[1]) for a in alts)
+        from ..terms import first_of
+        return bool(alts) and all(first_of(a) is not None and own_origins(first_of(a)) for a in alts)
     ok = bool(refs) and all(t[0] == "attr" and t[2] == "origin_reference" and first_own_origin(t[1]) for t in refs)
     chk.require(ok, "R07.4", "default-origin-is-defining-origin",
                 f"the default origin reference is `{[pp(t)[:70] for t in refs]}`, not the origin reference of the first "
@@ -350,6 +366,8 @@ def r07_4_origins(chk):
 
 
 def r07_5_iflr_reference(chk):
+    from ..terms import SELF, A, alternatives, is_call, call_arg, pp, return_alternatives
+    from ._layout import row_body, _parts
     ix = chk.ix
     for cname, field, arg in (("FrameData", "_frame", "frame"), ("NoFormatFrameData", "no_format_object",
                                                                 "no_format_object")):
@@ -357,29 +375,34 @@ def r07_5_iflr_reference(chk):
         body = c.lookup("_make_body_bytes")
         init = c.lookup("__init__")
         chk.consult(body, init)
-        stores = [n for n in walk_local(init.node) if isinstance(n, ast.Assign) and any(is_self_attr(t, field)
-                                                                                         for t in n.targets)]
-        ok = len(stores) == 1 and isinstance(stores[0].value, ast.Name) and stores[0].value.id == arg
+        si = chk.summary(init)
+        sts = [e for e in si.stores(field) if e.base == SELF]
+        ok = len(sts) == 1 and sts[0].value == ("param", arg) and not sts[0].loops()
         chk.require(ok, "R07.5", f"reference-object-stored-verbatim:{cname}",
                     f"{cname} does not keep the object it was constructed with", init.where)
-        # first operand of the body expression
-        first = None
-        for n in walk_local(body.node):
-            if isinstance(n, (ast.Assign, ast.Return)) and n.value is not None:
-                e = n.value
-                while isinstance(e, ast.BinOp) and isinstance(e.op, ast.Add):
-                    e = e.left
-                if isinstance(e, ast.Attribute) and e.attr == "obname":
-                    first = e
-                    break
-        ok = first is not None and norm(first.value) == f"self.{field}"
+        want = A(SELF, field, "obname")
+        if cname == "FrameData":
+            firsts = [row_body(chk).head[:1]]
+        else:
+            bs = chk.terms.inline(body, 2)
+            firsts = []
+            for _, t in return_alternatives(bs):
+                if is_call(t, "join", 1) and t[2][0][0] in ("list", "tuple"):
+                    firsts.append(list(t[2][0][1][:1]))
+                else:
+                    firsts.append(_parts(t)[:1])
+        ok = bool(firsts) and all(f_ == [want] for f_ in firsts)
         chk.require(ok, "R07.5", f"body-starts-with-obname:{cname}",
-                    f"the {cname} record body does not start with the OBNAME of its {arg}", body.where)
+                    f"the {cname} record body starts with {[pp(x)[:40] for f_ in firsts for x in f_]}, not with the OBNAME "
+                    f"of its {arg}", body.where)
     mfd = ix.get_class("MultiFrameData")
-    nx = mfd.lookup("__next__")
-    s = norm(nx.node).replace(" ", "")
-    chk.require("frame=self._frame" in s, "R07.5", "frame-data-refers-to-its-frame",
-                "frame data records are not created with the frame they belong to", nx.where)
+    made = []
+    for m in mfd.methods.values():
+        for cterm in chk.summary(m).all_calls("FrameData"):
+            made.append((m, cterm))
+    ok = bool(made) and all(call_arg(c_, 0, "frame") == A(SELF, "_frame") for _, c_ in made)
+    chk.require(ok, "R07.5", "frame-data-refers-to-its-frame",
+                "frame data records are not created with the frame they belong to", mfd.where)
 
 
 def r07_6_order(chk):
